@@ -135,7 +135,10 @@ func (r *rig) close() {
 	for _, p := range r.proc.ScanLog() {
 		r.c.R.Violate(fmt.Sprintf("fabio-%s:%s", p.Kind, fabioproc.FirstFabioFrame(p.Text)), fmt.Sprintf("fabio (%s rig) log shows a %s:\n%s", r.name, p.Kind, p.Text), nil)
 	}
-	if died {
+	if died && strings.Contains(r.proc.LogTail(6000), "address already in use") {
+		// another process took a port between probing and binding: an environment problem, not fabio's
+		r.c.R.Inconcl("fabio (%s rig) could not bind a listener: address already in use", r.name)
+	} else if died {
 		r.c.R.Violate("fabio-exited-unexpectedly", fmt.Sprintf("fabio (%s rig) exited by itself: %v\n%s", r.name, r.proc.ExitErr, r.proc.LogTail(3000)), nil)
 	}
 }
